@@ -10,6 +10,11 @@
 (*   qe   quantified conjunctions with equalities between object terms     *)
 (*        (x = t, t = x, x = nxt(x), 3-ary conjunctions, nested            *)
 (*        quantifiers re-binding x, a quantifier next to a free x)         *)
+(*   cap  Exists x. (x = t(y) /\ Q y. body(x, y)) with y free outside: the  *)
+(*        eliminated variable is replaced by a term whose variable is       *)
+(*        re-bound inside (capture)                                        *)
+(*   sub  Exists / Forall z : Ts over conjunctions equating z with terms of *)
+(*        the supertype T (q, o2, nxt(..), free x)                         *)
 (* and, for the seeded depth-2/3 compositions made by the driver, the      *)
 (* indexed pools B1 / N1 (file POOL).  The problem itself goes to PROB.    *)
 (* The "big" family (constants beyond 2^53, BigArith limb form): every     *)
@@ -63,14 +68,33 @@ Outer == {Op2(o, Qx("exists", Op2("and", e, a)), b) : o \in {"and", "or"}, e \in
 FamQE == (QuantLevel(Conj2) \cup {Qx("exists", a) : a \in Conj3 \cup Nested}
           \cup (IF Quick THEN {} ELSE {Qx("forall", a) : a \in Conj3 \cup Nested}) \cup Outer) \ FamQ1
 
-Cases == [f \in {"d1", "q1", "d2", "qe"} |->
-            CASE f = "d1" -> FamD1 [] f = "q1" -> FamQ1 [] f = "d2" -> FamD2 [] f = "qe" -> FamQE]
+\* ---------- capture: the eliminated variable is replaced by a term whose variable y is re-bound inside ----------
+CapEq == {Op2("eq", X, t) : t \in {Y, Fl1("nxt", Y)}} \cup {Op2("eq", t, X) : t \in {Y, Fl1("nxt", Y)}}
+CapIn == {Op2("eq", Y, X), Op2("eq", X, Y), Op2("or", Fl1("p", Y), Op2("eq", X, Y)),
+          Op2("and", Fl1("p", Y), Op2("eq", X, Y)), Fl1("p", X), Op2("eq", Fl1("nxt", Y), X)}
+FamCap == {Qx("exists", Op2("and", e, Qy(o, b))) : e \in CapEq, o \in {"exists", "forall"}, b \in CapIn}
+          \cup {Qx("exists", Op2("and", Qy(o, b), e)) : e \in CapEq, o \in {"exists", "forall"}, b \in CapIn}
+          \cup {Qx("exists", Op3("and", e, Qy(o, b), Fl1("p", Y))) : e \in CapEq, o \in {"exists", "forall"}, b \in CapIn}
+
+\* ---------- subtypes: z ranges over Ts, the terms it is equated with have the supertype T ----------
+SubT == {Q, O2, O1, X, Fl1("nxt", O1), Fl1("nxt", Z)}
+SubEq == {Op2("eq", Z, t) : t \in SubT} \cup {Op2("eq", t, Z) : t \in SubT}
+SubPhi == {Fl1("p", Z), Fl1("sp", Z), Op2("eq", Fl1("nxt", Z), O1), TRUEc}
+FamSub == SubEq
+          \cup {Qz(o, e) : o \in {"exists", "forall"}, e \in SubEq}
+          \cup {Qz(o, Op2("and", e, f)) : o \in {"exists", "forall"}, e \in SubEq, f \in SubPhi}
+          \cup {Qz(o, Op2("and", f, e)) : o \in {"exists", "forall"}, e \in SubEq, f \in SubPhi}
+
+Cases == [f \in {"d1", "q1", "d2", "qe", "cap", "sub"} |->
+            CASE f = "d1" -> FamD1 [] f = "q1" -> FamQ1 [] f = "d2" -> FamD2 [] f = "qe" -> FamQE
+              [] f = "cap" -> FamCap [] f = "sub" -> FamSub]
 Rows(f) == LET s == SetToSeq(Cases[f]) IN [i \in DOMAIN s |-> [fam |-> f, e |-> s[i]]]
 
 ASSUME ndJsonSerialize(IOEnv.PROB, <<[P |-> Prob, keys |-> Keys]>>)
-ASSUME ndJsonSerialize(IOEnv.OUT, Rows("d1") \o Rows("q1") \o Rows("d2") \o Rows("qe"))
+ASSUME ndJsonSerialize(IOEnv.OUT, Rows("d1") \o Rows("q1") \o Rows("d2") \o Rows("qe") \o Rows("cap") \o Rows("sub"))
 ASSUME ndJsonSerialize(IOEnv.POOL, <<[B |-> SetToSeq(D1B \cup FamQ1), N |-> SetToSeq(D1N)]>>)
-ASSUME PrintT(<<"EMITTED", Cardinality(FamD1), Cardinality(FamQ1), Cardinality(FamD2), Cardinality(FamQE)>>)
+ASSUME PrintT(<<"EMITTED", Cardinality(FamD1), Cardinality(FamQ1), Cardinality(FamD2), Cardinality(FamQE),
+                 Cardinality(FamCap), Cardinality(FamSub)>>)
 
 \* ---------- big constants ----------
 BC(q) == [op |-> "const", args |-> <<>>, name |-> "", q |-> q]
